@@ -187,6 +187,20 @@ def check_props_file(prop: str, scratch: Path) -> dict:
     return {"ok": ok, "log": out, "theorems": theorems, "assumptions": assumptions}
 
 
+def coqchk(prop: str, timeout: int = 1500) -> tuple[bool, str, list[str]]:
+    """Re-check Props/<prop>.vo and everything it depends on with the independent checker."""
+    cmd = ["timeout", str(timeout), "coqchk", "-silent", "-o", "-Q", str(COQ), LOGICAL, f"{LOGICAL}.Props.{prop}"]
+    p = subprocess.run(cmd, cwd=str(COQ), stdout=subprocess.PIPE, stderr=subprocess.STDOUT, text=True)
+    out = p.stdout
+    ax: list[str] = []
+    m = re.search(r"\* Axioms:(.*?)\n\s*\n\* ", out, re.S)
+    if m and "<none>" not in m.group(1):
+        ax = [l.strip() for l in m.group(1).splitlines() if l.strip()]
+    bad = any(k in out and "<none>" not in out.split(k, 1)[1].split("\n* ", 1)[0]
+              for k in ("relying on type-in-type:", "relying on unsafe (co)fixpoints:", "positivity is assumed:"))
+    return p.returncode == 0 and not bad, out[-3000:], ax
+
+
 def parse_assumptions(out: str) -> dict:
     """Parse the output of a series of `Print Assumptions`.  Returns
     {'closed': n, 'axioms': sorted list of axiom names seen}."""
